@@ -19,7 +19,10 @@ RULE = ("Round trip. Accepted programs (generated scalar-core programs with stru
         "statement) x both optimisation settings are (1) stored exactly as nslc.py does (pickle.dump of Result.IRModule) "
         "and loaded with FilesystemModuleLoader().Load in the same process, (2) stored by the worker and loaded in a "
         "fresh child process, (3) stored by the real `nslc.py -O<n> -o file` command line in a child process and loaded "
-        "both in the worker and in another fresh process. Oracle: the InstructionPrinter listing, the global table and "
+        "both in the worker and in another fresh process; (4) stored under file names with and without the .nslir "
+        "suffix next to a decoy <stem>.nslir, after the same path held another module that was already loaded; (5) a "
+        "generated library (struct + functions taking it, overload sets) is stored and a program importing it is compiled "
+        "against the stored file, stored, linked and run - it must behave like the same code compiled as one module. Oracle: the InstructionPrinter listing, the global table and "
         "the VM results (return value, globals after the call, or the same exception class) on generated inputs must "
         "equal those of the in-memory module. Non-trivial = module with >= 2 functions or >= 3 basic blocks that was "
         "executed on >= 1 input; distinct by (source, optimisation setting).")
@@ -58,7 +61,8 @@ POOL = [
 class Item:
     """a source with inputs; show() abbreviates very long sources"""
 
-    def __init__(self, src, entry, inputs, optimize):
+    def __init__(self, src, entry, inputs, optimize, fname="m.nslir"):
+        self.fname = fname   # the file name the module is stored under
         self.src = src
         self.entry = entry
         self.inputs = inputs  # list of (args, globals)
@@ -66,17 +70,19 @@ class Item:
 
     def show(self):
         src = self.src if len(self.src) < 4000 else self.src[:600] + "\n... (%d lines in total) ...\n" % self.src.count("\n") + self.src[-200:]
-        return "%s// optimize=%s entry=%s inputs=%r" % (src, self.optimize, self.entry, self.inputs)
+        return "%s// optimize=%s entry=%s inputs=%r stored-as=%s" % (src, self.optimize, self.entry, self.inputs,
+                                                                     getattr(self, "fname", "m.nslir"))
 
 
 @st.composite
 def items(draw):
     opt = draw(st.booleans())
+    fname = draw(st.sampled_from(["m.nslir", "m.nslir", "m.nslir", "m.bin", "m", "blur.v2", "prog.o1", "lib.nslir.bak"]))
     if draw(st.integers(0, 99)) < 70:
         c = draw(gen.core_case(n_inputs=2))
-        return Item(c.source(), c.entry, c.inputs, opt)
+        return Item(c.source(), c.entry, c.inputs, opt, fname)
     src, entry, ins = draw(st.sampled_from(POOL))
-    return Item(src, entry, [(a, {}) for a in ins], opt)
+    return Item(src, entry, [(a, {}) for a in ins], opt, fname)
 
 
 def observe(module, entry, inputs, budget=200000):
@@ -144,8 +150,29 @@ def inproc_case(ctx, item):
         ctx.nontrivial((item.src, item.optimize))
     ctx.label("optimize=%s" % item.optimize)
     d = tempfile.mkdtemp(prefix="c17_")
+    fname = getattr(item, "fname", "m.nslir")
+    ctx.label("stored-as:" + ("*.nslir" if fname.endswith(".nslir") else "other-name"))
+    m3 = None
     try:
-        path = os.path.join(d, "m.nslir")
+        path = os.path.join(d, fname)
+        if not fname.endswith(".nslir"):
+            # another module lives next to it under <stem>.nslir: loading the exact name must not pick it up
+            import pathlib
+            decoy = adapter.compile_src("export function decoy ( int z ) -> int { return z ; }\n")
+            with open(pathlib.Path(path).with_suffix(".nslir"), "wb") as fh:
+                pickle.dump(decoy.ir, fh)
+        # history at one path: the module compiled at the OTHER optimisation setting is stored and loaded first,
+        # then the file is rewritten with the module under test
+        other = adapter.compile_src(item.src, optimize=not item.optimize)
+        if other.ok:
+            try:
+                with open(path, "wb") as fh:
+                    pickle.dump(other.ir, fh)
+                with adapter.quiet():
+                    LinearIR.FilesystemModuleLoader().Load(path)
+                ctx.label("file-rewritten-before-load")
+            except Exception:
+                pass   # judged below on the module under test
         try:
             with open(path, "wb") as fh:
                 pickle.dump(c.ir, fh)
@@ -160,15 +187,18 @@ def inproc_case(ctx, item):
             ctx.fail("load|" + type(e).__name__, "stored module cannot be loaded: %r\n%s" % (e, item.show()), item)
             return
         # load by module name without suffix as well (the loader appends .nslir)
-        try:
-            with adapter.quiet():
-                m3 = LinearIR.FilesystemModuleLoader().Load(os.path.join(d, "m"))
-        except Exception as e:
-            ctx.fail("load-by-name|" + type(e).__name__, "Load('m') did not find m.nslir: %r" % (e,), item)
-            return
+        if fname == "m.nslir":
+            try:
+                with adapter.quiet():
+                    m3 = LinearIR.FilesystemModuleLoader().Load(os.path.join(d, "m"))
+            except Exception as e:
+                ctx.fail("load-by-name|" + type(e).__name__, "Load('m') did not find m.nslir: %r" % (e,), item)
+                return
     finally:
         shutil.rmtree(d, ignore_errors=True)
     for tag, m in (("same-process", m2), ("by-name", m3)):
+        if m is None:
+            continue
         try:
             got = observe(m, item.entry, item.inputs)
         except Exception as e:
@@ -295,6 +325,112 @@ def fresh_worker_factory(R, n_cases, n_cli):
     return worker
 
 
+# -- a stored library as seen by a program importing it (the metadata travels in the file) ------------------
+
+class LibCase:
+    def __init__(self, lib, body, entry, inputs, libname):
+        self.lib, self.body, self.entry, self.inputs, self.libname = lib, body, entry, inputs, libname
+
+    def show(self):
+        return "// ---- %s.nslir (stored) ----\n%s// ---- importer ----\nimport \"%s\" ;\n%s// inputs=%r" % (
+            self.libname, self.lib, self.libname, self.body, self.inputs)
+
+
+@st.composite
+def lib_cases(draw):
+    ftypes = [draw(st.sampled_from(["int", "float"])) for _ in range(draw(st.integers(2, 3)))]
+    fields = ["f%d" % i for i in range(len(ftypes))]
+    lib = "struct S { %s }\n" % " ".join("%s %s ;" % (t, n) for t, n in zip(ftypes, fields))
+    nfun = draw(st.integers(1, 3))
+    calls = []
+    for k in range(nfun):
+        extra = draw(st.sampled_from([None, "int", "float"]))
+        expr = " ".join("s . %s %s" % (n, draw(st.sampled_from(["+", "-", "*"]))) for n in fields) + " 1"
+        if extra:
+            expr = "( %s ) + k" % expr if False else expr + " + k"
+        name = draw(st.sampled_from(["lf%d" % k, "lf"]))   # sometimes an overload set
+        params = "S s" + (" , %s k" % extra if extra else "")
+        sig = (name, extra)
+        if sig in [c[:2] for c in calls]:
+            name = "lf%d" % k
+        lib += "function %s ( %s ) -> float { return %s ; }\n" % (name, params, expr)
+        calls.append((name, extra))
+    if draw(st.booleans()):
+        lib += "function lg ( float v ) -> float { return v / 2.0 ; }\n"
+        wrap = "lg ( %s )"
+    else:
+        wrap = "%s"
+    # a struct-typed global of the library's type in the importer, or a local
+    use_global = draw(st.booleans())
+    body = ("S gs ;\n" if use_global else "")
+    body += "export function main ( int a , float b ) -> float {\n"
+    var = "gs" if use_global else "l"
+    if not use_global:
+        body += "  S l ;\n"
+    for t, n in zip(ftypes, fields):
+        body += "  %s . %s = %s ;\n" % (var, n, "a" if t == "int" else "b")
+    terms = []
+    for name, extra in calls:
+        arg = "" if extra is None else (" , a" if extra == "int" else " , b")
+        terms.append(wrap % ("%s ( %s%s )" % (name, var, arg)))
+    body += "  return %s ;\n}\n" % " + ".join(terms)
+    inputs = [{"a": draw(st.integers(-9, 9)), "b": draw(st.integers(-16, 16)) / 4.0} for _ in range(2)]
+    libname = draw(st.sampled_from(["geometry", "lib", "m0"]))
+    return LibCase(lib, body, "main", inputs, libname)
+
+
+def lib_case(ctx, case):
+    from nsl import LinearIR
+    ctx.count()
+    single = adapter.compile_src(case.lib + case.body)
+    if not single.ok:
+        ctx.discard("single-module-version-not-accepted:" + single.stage)
+        return
+    ins = [(a, {}) for a in case.inputs]
+    ref = observe(single.ir, case.entry, ins)["runs"]
+    work = tempfile.mkdtemp(prefix="c17l_")
+    old = os.getcwd()
+    os.chdir(work)
+    try:
+        lib = adapter.compile_src(case.lib)
+        if not lib.ok:
+            ctx.discard("library-not-accepted:" + lib.stage)
+            return
+        with open(case.libname + ".nslir", "wb") as fh:
+            pickle.dump(lib.ir, fh)
+        imp = adapter.compile_src('import "%s" ;\n%s' % (case.libname, case.body))
+        if not imp.ok:
+            ctx.fail("importer-of-stored-library-rejected|" + (adapter.exc_sig(imp.exc) if imp.exc is not None else imp.kind),
+                     "a program importing the STORED library is rejected although the same code compiles as one module: %s\n%s" % (
+                         imp.why(), case.show()), case)
+            return
+        with open("main.nslir", "wb") as fh:
+            pickle.dump(imp.ir, fh)
+        try:
+            with adapter.quiet():
+                linker = LinearIR.Linker(loader=LinearIR.FilesystemModuleLoader())
+                linker.AddModule(LinearIR.FilesystemModuleLoader().Load("main.nslir"))
+                program = linker.Link()
+        except Exception as e:
+            ctx.fail("stored-importer-does-not-link|" + adapter.exc_sig(e), "%r\n%s" % (e, case.show()), case)
+            return
+        got = []
+        for args, _ in ins:
+            ran = adapter.invoke(adapter.new_vm(program), case.entry, dict(args), budget=100000)
+            got.append({"value": ran.value, "globals": {}} if ran.ok else ("diverged" if ran.diverged else "exc:" + type(ran.exc).__name__))
+        ctx.label("importer-of-stored-library-ran")
+        ctx.nontrivial(case.show())
+        for x, y in zip(ref, got):
+            okk = (isinstance(x, dict) and isinstance(y, dict) and exact(x["value"], y["value"])) or (not isinstance(x, dict) and x == y)
+            if not okk:
+                ctx.fail("stored-library|behaviour", "program built from stored modules gives %r, the same code as one module %r\n%s" % (
+                    got, ref, case.show()), case)
+                return
+    finally:
+        os.chdir(old)
+        shutil.rmtree(work, ignore_errors=True)
+
+
 def large_case(ctx, spec):
     """functions far larger than the generators produce: n consecutive statements of one kind"""
     kind, n = spec
@@ -312,6 +448,8 @@ def large_case(ctx, spec):
 def run(R):
     R.enum("large-functions", [(k, n) for k in ("if", "loop", "straight") for n in (30, 90, 300, 600)], large_case,
            exhaustive=False)
+    R.hyp("stored-library", lib_cases(), lib_case, examples=R.pick(40, 800))
+    R.require("importer-of-stored-library-ran")
     R.hyp("roundtrip-inproc", items(), inproc_case, examples=R.pick(120, 2500))
     R.custom("fresh-process", fresh_worker_factory(R, R.pick(40, 600), R.pick(3, 40)), nworkers=16)
     for l in ("optimize=True", "optimize=False", "stored-by-nslc", "loaded-in-fresh-process"):
